@@ -243,6 +243,9 @@ def run_visit_guard(ctx: Ctx) -> RuleResult:
         if isinstance(n, ast.Assign) and isinstance(n.value, ast.Call) and norm(n.value.func) == 'getattr' and len(n.value.args) >= 2 \
                 and const_str(n.value.args[1]) == 'on_cycle':
             oc.add(norm(n.targets[0]))
+        if isinstance(n, ast.Assign) and isinstance(n.value, ast.Attribute) and n.value.attr == 'on_cycle' and len(n.targets) == 1:
+            oc.add(norm(n.targets[0]))
+    oc.add('%s.on_cycle' % (f.self_name() or 'self'))
     pushes = [n for n in ast.walk(loop) if isinstance(n, ast.Call) and norm(n.func) == 'input_stack.append']
     res.require_instances(len(pushes), 2, 'pushes onto the walk stack')
     pushes.sort(key=lambda c: (c.lineno, c.col_offset))
